@@ -8,6 +8,15 @@ COMMON_ASSUME = [
 from extras import pod_features
 
 PROPS = {
+    "C11": {
+        "lean_module": "SplProofs.C11",
+        "streams": ["C11"],
+        "rule": "stream seeds: every literal length 0..300 (alone and behind another seed, incl. 253-257), every kind at the end of an exactly-32-byte list and one byte over, 0/16/17 seeds, "
+                "uninitialised seeds at every position, random lists; Seed::pack into destination slices of wrong sizes; unpack of random, small-alphabet and structured 32-byte arrays "
+                "(valid packings with garbage tails / mutated bytes) and of prefixes; key-data configs over both u8 parameters (thorough: exhaustive 65 536 + 256) and byte prefixes; "
+                "non-trivial = list of >= 2 seeds or literal >= 30 bytes; for unpack: array whose first byte is a valid kind",
+        "assumptions": COMMON_ASSUME,
+    },
     "C13": {
         "lean_module": "SplProofs.C13",
         "streams": ["C13"],
